@@ -63,10 +63,12 @@ type World struct {
 	deadline   time.Time
 	timedOut   bool
 
-	solverName string
-	timeoutMs  int
-	smtLog     bool
-	panicsOK   map[string]bool
+	solverName     string
+	timeoutMs      int
+	smtLog         bool
+	panicsOK       map[string]bool
+	depthViolation bool
+	hangViolation  bool
 }
 
 func (w *World) push(h string, p []int64) {
@@ -420,7 +422,15 @@ func (ex *Exec) finishPath(kind, msg string) {
 			w.engineErrs = append(w.engineErrs, msg)
 		}
 		w.mu.Unlock()
-	case "unsupported", "unwind", "depth":
+	case "depth":
+		if w.depthViolation {
+			if ex.check() == Sat {
+				w.addViolation(&Violation{Harness: ex.harness, Site: "call-depth", Kind: "depth", Msg: msg, Model: ex.sol.Model(ex.inputs), Choices: copyChoices(ex.choices)})
+			}
+		} else {
+			w.note(kind + ": " + msg)
+		}
+	case "unsupported", "unwind":
 		w.note(kind + ": " + msg)
 	case "steplimit":
 		if w.hangIsViolation(ex.harness) {
@@ -441,7 +451,7 @@ func (ex *Exec) finishPath(kind, msg string) {
 	}
 }
 
-func (w *World) hangIsViolation(h string) bool { return false }
+func (w *World) hangIsViolation(h string) bool { return w.hangViolation }
 
 func (ex *Exec) describePath(kind, msg string) string {
 	var sb strings.Builder
